@@ -3,6 +3,11 @@ use super::Verdict;
 use crate::{analysis::*, history::*};
 
 pub fn check(v: &View, vd: &mut Verdict) {
+    barrier(v, vd, "C04", true);
+}
+
+/// the stop-barrier rules; `awaiters` = also the announcement rules (d) and the classes
+pub fn barrier(v: &View, vd: &mut Verdict, prop: &str, awaiters: bool) {
     let n = v.actors.len();
     let mut class_a = false;
     let mut class_b = false;
@@ -35,19 +40,41 @@ pub fn check(v: &View, vd: &mut Verdict) {
                 }
             }
         }
+        // awaiters of a failed actor get an error / None - every one of them, also late ones
+        if awaiters && av.task_end.is_some() && !av.graceful {
+            let dead = v.dead_from(a);
+            for o in v.client_ops().filter(|o| o.actor == Some(a) && o.end.is_some_and(|e| e > dead)) {
+                let bad = match (&o.what, &o.res) {
+                    (OpWhat::AwaitClone, Some(r)) => r.is_ok(),
+                    (OpWhat::Join, Some(OpRes::Joined(Some(_)))) => true,
+                    _ => false,
+                };
+                if bad {
+                    if o.begin > dead {
+                        late_awaiter = true;
+                    }
+                    vd.fail(
+                        format!("{prop}/failed_actor_reported_ok/{:?}", o.what),
+                        format!("actor {a} failed ({:?}) but client {} op {} {:?} (begun at {}) got {:?}", av.task_end, o.client, o.op, o.what, o.begin, o.res),
+                    );
+                }
+            }
+        }
         if first_issued == u64::MAX {
             continue;
         }
         let teardown = v.phase(Phase::Teardown);
+        // the barrier is stated "absent failures": a failed actor only has to report its failure to awaiters
+        let failed = av.task_end.is_some() && !av.graceful;
         // (a) / (b)
         for o in v.client_ops().filter(|o| o.actor == Some(a) && matches!(o.what, OpWhat::Send | OpWhat::Call)) {
             let id = o.msg.unwrap();
             let invs = v.inv_of_msg(id);
-            if o.ok() && o.end.is_some_and(|e| e < first_issued) {
+            if o.ok() && o.end.is_some_and(|e| e < first_issued) && !failed {
                 class_a = true;
                 if invs.is_empty() || invs[0].exit.is_none() {
                     vd.fail(
-                        format!("C04/drain_lost/{:?}", o.what),
+                        format!("{prop}/drain_lost/{:?}", o.what),
                         format!("actor {a}: message {id} ({:?} via {:?}) was accepted at {:?}, before the first stop request was issued at {first_issued}, but was not handled", o.what, o.via, o.end),
                     );
                 }
@@ -56,24 +83,37 @@ pub fn check(v: &View, vd: &mut Verdict) {
                 class_b = true;
                 if !invs.is_empty() {
                     vd.fail(
-                        format!("C04/handled_after_stop/{:?}", o.what),
+                        format!("{prop}/handled_after_stop/{:?}", o.what),
                         format!("actor {a}: message {id} ({:?} via {:?}) submitted at {} after an accepted stop request had returned at {first_accepted_returned} was handled at {}", o.what, o.via, o.begin, invs[0].enter),
                     );
                 }
                 if o.what == OpWhat::Call && o.ok() {
-                    vd.fail("C04/call_ok_after_stop", format!("actor {a}: call {id} submitted after an accepted stop returned Ok"));
+                    vd.fail(format!("{prop}/call_ok_after_stop"), format!("actor {a}: call {id} submitted after an accepted stop returned Ok"));
                 }
             }
         }
+        // a ping submitted after an accepted stop returned sits behind the stop: it cannot be answered
+        for o in v.client_ops().filter(|o| o.actor == Some(a) && o.what == OpWhat::Ping) {
+            if first_accepted_returned != u64::MAX && o.begin > first_accepted_returned && o.begin < teardown && o.ok() {
+                vd.fail(format!("{prop}/ping_ok_after_stop"), format!("actor {a}: ping at {} after an accepted stop request had returned at {first_accepted_returned} returned Ok", o.begin));
+            }
+        }
         // (c) graceful termination after an accepted stop
-        if first_accepted_returned != u64::MAX {
+        if first_accepted_returned != u64::MAX && !failed {
+            let settle = v.phase(Phase::Settle);
+            if first_accepted_returned < settle && av.task_end.is_some_and(|(s, _)| s > teardown) {
+                vd.fail(format!("{prop}/no_termination_before_teardown"), format!("actor {a}: a stop request was accepted at {first_accepted_returned} (run phase) but the actor only terminated at {:?}, after the harness had dropped every handle at {teardown}", av.task_end));
+            }
             if av.task_end.is_none() {
-                vd.fail("C04/no_termination", format!("actor {a}: a stop request was accepted at {first_accepted_returned} but the actor never terminated"));
+                vd.fail(format!("{prop}/no_termination"), format!("actor {a}: a stop request was accepted at {first_accepted_returned} but the actor never terminated"));
             } else if !av.graceful {
-                vd.fail("C04/not_graceful", format!("actor {a}: accepted stop, but termination was not graceful ({:?}, stopped exit {:?})", av.task_end, av.stopped_exit));
+                vd.fail(format!("{prop}/not_graceful"), format!("actor {a}: accepted stop, but termination was not graceful ({:?}, stopped exit {:?})", av.task_end, av.stopped_exit));
             }
         }
         // (d) awaiters
+        if !awaiters {
+            continue;
+        }
         let Some(stopped_exit) = av.stopped_exit else { continue };
         let dead = v.dead_from(a);
         for o in v.client_ops().filter(|o| o.actor == Some(a)) {
@@ -90,12 +130,12 @@ pub fn check(v: &View, vd: &mut Verdict) {
                     };
                     if end < stopped_exit {
                         vd.fail(
-                            format!("C04/announced_before_stopped/{:?}", o.what),
+                            format!("{prop}/announced_before_stopped/{:?}", o.what),
                             format!("actor {a}: client {} op {} {:?} resolved at {end}, before stopped() finished at {stopped_exit}", o.client, o.op, o.what),
                         );
                     } else if o.what == OpWhat::AwaitClone && resolved_ok != av.graceful {
                         vd.fail(
-                            format!("C04/await_result/graceful={}", av.graceful),
+                            format!("{prop}/await_result/graceful={}", av.graceful),
                             format!("actor {a}: client {} op {} await returned {:?} (graceful={})", o.client, o.op, o.res, av.graceful),
                         );
                     }
@@ -104,13 +144,13 @@ pub fn check(v: &View, vd: &mut Verdict) {
                     let okish = o.ok();
                     if okish && end < stopped_exit {
                         vd.fail(
-                            format!("C04/announced_before_stopped/{:?}", o.what),
+                            format!("{prop}/announced_before_stopped/{:?}", o.what),
                             format!("actor {a}: client {} op {} {:?} returned Ok at {end}, before stopped() finished at {stopped_exit}", o.client, o.op, o.what),
                         );
                     }
                     if o.begin < v.alive_until(a).min(first_issued) && !okish && av.graceful {
                         vd.fail(
-                            format!("C04/halt_failed/{:?}", o.what),
+                            format!("{prop}/halt_failed/{:?}", o.what),
                             format!("actor {a}: client {} op {} {:?} began at {} while the actor was alive and nothing else had asked it to stop, but returned {:?}", o.client, o.op, o.what, o.begin, o.res),
                         );
                     }
@@ -118,6 +158,9 @@ pub fn check(v: &View, vd: &mut Verdict) {
                 _ => {}
             }
         }
+    }
+    if !awaiters {
+        return;
     }
     if class_a {
         vd.class("msg_before_stop");
